@@ -77,6 +77,7 @@ Record arch := {
   a_cfi_sp_name : Z; a_cfi_ip_name : Z;   (* stack_pointer_register_name / instruction_pointer_register_name *)
   a_aliases : list (Z * Z);
   a_callee_saved : list Z;
+  a_fwd_alias : bool;    (* callee_forwarded_regs asks register_is_valid (alias-aware) instead of looking the name up literally *)
   a_fp : fp_kind;
   a_fp_guard_words : Z;  (* last_bp >= MAX - POINTER_WIDTH * n *)
   a_bp : bp_kind;        (* frame-pointer recovery inside the scan *)
@@ -143,11 +144,15 @@ Definition reg_valid (n : Z) (v : validity) : bool :=
   | VSome l => existsb (fun m => memb m l) (alias_group n)
   end.
 
-(* callee_forwarded_regs *)
+(* callee_forwarded_regs: the CALLEE_SAVED_REGS entries that are valid in the callee.  Two bodies exist in the sources
+   (Gen/UnwindConsts.v <arch>_fwd_alias says which one an unwinder has): the literal lookup `which.contains(reg)` and, since
+   the repair of F-C04a in arm / arm64, `ctx.register_is_valid(reg, valid)`, which knows the alias groups (fp ~ r11 / x29).
+   With validity All both forward every entry (register_is_valid = memoize_register(reg).is_some(); the translator checks
+   that every entry is a register name of the context). *)
 Definition forwarded (v : validity) : list Z :=
   match v with
   | VAll => a_callee_saved a
-  | VSome l => filter (fun n => memb n l) (a_callee_saved a)
+  | VSome l => filter (fun n => if a_fwd_alias a then reg_valid n v else memb n l) (a_callee_saved a)
   end.
 
 (* ---- arm64 ptr_auth_strip: mask = checked_next_power_of_two(max(2^47-1, max_module_addr)) - 1, or !0;
@@ -431,7 +436,7 @@ Definition x86 : arch := {|
   a_bits := x86_bits; a_slot_bits := x86_bits; a_pw := x86_pw; a_trunc := false;
   a_ip_name := x86_ip_name; a_sp_name := x86_sp_name; a_fp_name := x86_fp_name; a_lr_name := N_lr;
   a_cfi_sp_name := x86_sp_name; a_cfi_ip_name := x86_ip_name;
-  a_aliases := []; a_callee_saved := x86_callee_saved;
+  a_aliases := []; a_callee_saved := x86_callee_saved; a_fwd_alias := x86_fwd_alias;
   a_fp := FpX86; a_fp_guard_words := x86_fp_guard_words; a_bp := BpX86; a_max_gap := x86_max_gap;
   a_scan_context := x86_scan_context; a_scan_default := x86_scan_default; a_scan_skip := 0;
   a_pre_ok := fun x => negb (x =? 0); a_canon_fp := fun _ => true; a_strip := false;
@@ -441,7 +446,7 @@ Definition amd64 : arch := {|
   a_bits := amd64_bits; a_slot_bits := amd64_bits; a_pw := amd64_pw; a_trunc := false;
   a_ip_name := amd64_ip_name; a_sp_name := amd64_sp_name; a_fp_name := amd64_fp_name; a_lr_name := N_lr;
   a_cfi_sp_name := amd64_sp_name; a_cfi_ip_name := amd64_ip_name;
-  a_aliases := []; a_callee_saved := amd64_callee_saved;
+  a_aliases := []; a_callee_saved := amd64_callee_saved; a_fwd_alias := amd64_fwd_alias;
   a_fp := FpAmd64; a_fp_guard_words := amd64_fp_guard_words; a_bp := BpAmd64; a_max_gap := amd64_max_gap;
   a_scan_context := amd64_scan_context; a_scan_default := amd64_scan_default; a_scan_skip := 0;
   a_pre_ok := fun x => negb (amd64_non_canonical x || (x =? 0));
@@ -452,7 +457,7 @@ Definition arm : arch := {|
   a_bits := arm_bits; a_slot_bits := arm_bits; a_pw := arm_pw; a_trunc := false;
   a_ip_name := arm_ip_name; a_sp_name := arm_sp_name; a_fp_name := arm_fp_name; a_lr_name := N_lr;
   a_cfi_sp_name := arm_cfi_sp_name; a_cfi_ip_name := arm_cfi_ip_name;
-  a_aliases := arm_aliases; a_callee_saved := arm_callee_saved;
+  a_aliases := arm_aliases; a_callee_saved := arm_callee_saved; a_fwd_alias := arm_fwd_alias;
   a_fp := FpArm; a_fp_guard_words := arm_fp_guard_words; a_bp := BpNone; a_max_gap := 0;
   a_scan_context := arm_scan_context; a_scan_default := arm_scan_default; a_scan_skip := 0;
   a_pre_ok := fun _ => true; a_canon_fp := fun _ => true; a_strip := false;
@@ -463,7 +468,7 @@ Definition arm64 : arch := {|
   a_bits := arm64_bits; a_slot_bits := arm64_bits; a_pw := arm64_pw; a_trunc := false;
   a_ip_name := arm64_ip_name; a_sp_name := arm64_sp_name; a_fp_name := arm64_fp_name; a_lr_name := arm64_lr_name;
   a_cfi_sp_name := arm64_cfi_sp_name; a_cfi_ip_name := arm64_cfi_ip_name;
-  a_aliases := arm64_aliases; a_callee_saved := arm64_callee_saved;
+  a_aliases := arm64_aliases; a_callee_saved := arm64_callee_saved; a_fwd_alias := arm64_fwd_alias;
   a_fp := FpArm64; a_fp_guard_words := arm64_fp_guard_words; a_bp := BpNone; a_max_gap := 0;
   a_scan_context := arm64_scan_context; a_scan_default := arm64_scan_default; a_scan_skip := 0;
   a_pre_ok := fun x => negb (arm64_non_canonical x || (x =? 0));
@@ -474,7 +479,7 @@ Definition mips32 : arch := {|
   a_bits := 32; a_slot_bits := mips_slot_bits; a_pw := mips32_pw; a_trunc := true;
   a_ip_name := mips_ip_name; a_sp_name := mips_sp_name; a_fp_name := 26224; a_lr_name := N_lr;
   a_cfi_sp_name := mips_sp_name; a_cfi_ip_name := mips_ip_name;
-  a_aliases := []; a_callee_saved := mips_callee_saved;
+  a_aliases := []; a_callee_saved := mips_callee_saved; a_fwd_alias := mips_fwd_alias;
   a_fp := FpNone; a_fp_guard_words := 2; a_bp := BpNone; a_max_gap := 0;
   a_scan_context := mips32_max_stack / mips32_pw;
   a_scan_default := mips32_max_stack / mips32_pw - mips32_min_args;
@@ -486,7 +491,7 @@ Definition mips64 : arch := {|
   a_bits := 64; a_slot_bits := mips_slot_bits; a_pw := mips64_pw; a_trunc := false;
   a_ip_name := mips_ip_name; a_sp_name := mips_sp_name; a_fp_name := 26224; a_lr_name := N_lr;
   a_cfi_sp_name := mips_sp_name; a_cfi_ip_name := mips_ip_name;
-  a_aliases := []; a_callee_saved := mips_callee_saved;
+  a_aliases := []; a_callee_saved := mips_callee_saved; a_fwd_alias := mips_fwd_alias;
   a_fp := FpNone; a_fp_guard_words := 2; a_bp := BpNone; a_max_gap := 0;
   a_scan_context := mips64_max_stack / mips64_pw;
   a_scan_default := mips64_max_stack / mips64_pw;
